@@ -13,7 +13,10 @@ assignment, *=, +=, or nothing), every call compared with the model on the conte
 la.dot / la.matmul / @ also get N-d operands: dot with scalars and 1-D..3-D operands in all combinations,
 matmul with equal-rank stacks and broadcasting; arguments that are NOT object arrays: uarrays built from int64 /
 int32 / float64 ndarrays (the uarray keeps that dtype), plain ndarrays, nested lists; la.transpose / np.transpose /
-.T with explicit axes (every permutation, negative axes) on 1-D..3-D arrays) and the outcome -- every result element (value, the three component vectors,
+.T with explicit axes (every permutation, negative axes) on 1-D..3-D arrays; plain Python COMPLEX elements
+(structured: Re = -Im, Re = Im, purely imaginary; CPython's complex arithmetic is modelled, abs(complex) is an external hypot
+recorded from LU.py's calls); la.identity as an operation of its own; in-place writes into la.identity results and into the
+RESULTS of earlier calls between repeated calls) and the outcome -- every result element (value, the three component vectors,
 node kind), the contents of the argument arrays after the call, or the exception class -- is
 compared bit for bit with the Gallina model LU.v instantiated at LUInst.FElt (FNum), evaluated
 inside coqc.  The theorems (coq/LUFacts.v, coq/DualRing.v, coq/props/C15.v) are about the same
